@@ -79,5 +79,5 @@ package service
 //@   ensures fresh(result)
 //@ func (*InsertServiceV2).Request$1 [C01]
 //@   requires p.pending == 1 && size >= 0
-//@   check queued-or-settled: (p.pending == 0 && p.res == 0 && (err != nil || inserted == 0) && !(len(svc.results) >= 1 && svc.results[len(svc.results) - 1] == p)) ||
+//@   check queued-or-settled: (p.pending == 0 && p.res == 0 && (err != nil || inserted == 0)) ||
 //@          (p.pending == 1 && err == nil && inserted != 0 && len(svc.results) >= 1 && svc.results[len(svc.results) - 1] == p)
